@@ -35,9 +35,19 @@ Fixpoint ends_with_bslash (l : str) : bool :=
   | _ :: r => ends_with_bslash r
   end.
 
+(*  def _ends_with_backslash(line):            (fix C10a: CRLF line ends keep their carriage return)
+        if line.endswith("\r"): line = line[:-1]
+        return line.endswith("\\")                                                   *)
+Definition strip_cr (l : str) : str :=
+  match rev l with
+  | c :: r => if (c =? c_cr)%N then rev r else l
+  | [] => l
+  end.
+Definition line_continues (l : str) : bool := ends_with_bslash (strip_cr l).
+
 (*          while (endpos.lineno-1 > last_node_lineno and
                    _is_comment_or_blank(text[endpos.lineno-1]) and
-                   (not text[endpos.lineno-2].endswith("\\") or
+                   (not _ends_with_backslash(text[endpos.lineno-2]) or
                     (endpos.lineno-2 > last_node_lineno and
                      _is_comment_or_blank(text[endpos.lineno-2])))):
                 endpos = FilePos(endpos.lineno-1, 1)
@@ -56,7 +66,7 @@ Fixpoint walk_back (t : text) (lastl : nat) (fuel : nat) (L : nat) : option nat 
               match get_line t (L - 2) with
               | None => None
               | Some l2 =>
-                  if negb (ends_with_bslash l2) || ((lastl <? L - 2) && is_comment_or_blank l2)
+                  if negb (line_continues l2) || ((lastl <? L - 2) && is_comment_or_blank l2)
                   then walk_back t lastl f (L - 1)
                   else Some L
               end
@@ -83,7 +93,7 @@ Definition piece := (option node * text)%type.
             if endpos == text.endpos:
                 if (endpos.lineno > last_node_lineno and _is_comment_or_blank(text[endpos.lineno])):
                     assert startpos.lineno < endpos.lineno
-                    if (not text[endpos.lineno-1].endswith("\\") or
+                    if (not _ends_with_backslash(text[endpos.lineno-1]) or
                         (endpos.lineno-1 > last_node_lineno and
                          _is_comment_or_blank(text[endpos.lineno-1]))):       (F37)
                         endpos = FilePos(endpos.lineno,1)
@@ -106,7 +116,7 @@ Definition node_endpos (t : text) (n : node) (next : pos) : option pos :=
               if negb (lineno (n_start n) <? lineno next) then None
               else match get_line t (lineno next - 1) with
                    | None => None
-                   | Some p => if negb (ends_with_bslash p) || ((lastl <? lineno next - 1) && is_comment_or_blank p)
+                   | Some p => if negb (line_continues p) || ((lastl <? lineno next - 1) && is_comment_or_blank p)
                                then Some (mkPos (lineno next) 1) else Some next
                    end
             else Some next
